@@ -243,7 +243,11 @@ func runC08(c *report.Ctx) {
 		})
 		key := sk(rrc) + ":finish-only-when-exhausted"
 		if hdr == nil {
-			c.Fail(key, "anchor lost: no iterator loop in removeRelevantCredit", p.Pos(rrc.Pos()))
+			// the scan may live in a literal of the function (an iterator helper's body spliced in, the per-credit work a
+			// callback): the verdict is then a variable both share
+			if !finishCellForm(c, rrc, key) {
+				c.Fail(key, "anchor lost: no iterator loop in removeRelevantCredit", p.Pos(rrc.Pos()))
+			}
 		} else {
 			okAll, any := true, false
 			for _, b := range rrc.Blocks {
@@ -350,4 +354,168 @@ func ruleBackgroundSelectedWalletFree(c *report.Ctx) {
 		})
 	}
 	c.OK("background-code:selected-wallet-free", itoa(nbg)+" functions reachable from handle/worker examined", "")
+}
+
+// rootCell: the local variable (cell) of the outermost function that v — the cell itself or a free variable of a
+// literal, at any depth — stands for.
+func rootCell(v ssa.Value) *ssa.Alloc {
+	for i := 0; i < 6; i++ {
+		switch x := v.(type) {
+		case *ssa.Alloc:
+			return x
+		case *ssa.FreeVar:
+			lit := x.Parent()
+			par := lit.Parent()
+			if par == nil {
+				return nil
+			}
+			idx := -1
+			for k, q := range lit.FreeVars {
+				if q == x {
+					idx = k
+				}
+			}
+			var bound ssa.Value
+			an.Instrs(par, func(in ssa.Instruction) {
+				if mc, ok := in.(*ssa.MakeClosure); ok && mc.Fn == ssa.Value(lit) && idx >= 0 && idx < len(mc.Bindings) {
+					bound = mc.Bindings[idx]
+				}
+			})
+			if bound == nil {
+				return nil
+			}
+			v = bound
+		default:
+			return nil
+		}
+	}
+	return nil
+}
+
+// finishCellForm: the finish verdict of removeRelevantCredit kept in a variable that the scan — in a literal of the
+// function — and the final return share. Shown: (1) every success return hands back that variable; (2) it is set true
+// only in the function itself, before the literal that scans is made; (3) in the scanning literal every way out of
+// the iterator loop other than the iterator being exhausted or an error return passes an assignment of false.
+func finishCellForm(c *report.Ctx, rrc *ssa.Function, key string) bool {
+	p := c.P
+	var lit *ssa.Function
+	var hdr *ssa.BasicBlock
+	for _, g := range withLiterals(rrc) {
+		if g == rrc {
+			continue
+		}
+		an.Instrs(g, func(in ssa.Instruction) {
+			if cc := an.CallOf(in); cc != nil && cc.IsInvoke() && cc.Method.Name() == "Next" && isNamedIface(cc.Value.Type(), pkgDB, "Iterator") {
+				lit, hdr = g, in.Block()
+			}
+		})
+	}
+	if lit == nil {
+		return false
+	}
+	// (1) the returned verdict
+	var cell *ssa.Alloc
+	okRet, any := true, false
+	for _, b := range rrc.Blocks {
+		r, isRet := b.Instrs[len(b.Instrs)-1].(*ssa.Return)
+		if !isRet || len(r.Results) != 3 || p.ClassifyReturn(r, nil) == an.RetError {
+			continue
+		}
+		rv := an.RetOperand(r, 1)
+		if k, isK := rv.(*ssa.Const); isK && k.Value != nil && k.Value.ExactString() == "true" {
+			// the early "nothing to scan" return is before the variable exists
+			if cell != nil && cell.Block().Dominates(b) && cell.Block() != b {
+				okRet = false
+			}
+			continue
+		}
+		ld, isLd := rv.(*ssa.UnOp)
+		if !isLd || ld.Op != token.MUL {
+			okRet = false
+			continue
+		}
+		a := rootCell(ld.X)
+		if a == nil || (cell != nil && a != cell) {
+			okRet = false
+			continue
+		}
+		cell, any = a, true
+	}
+	if !any || cell == nil {
+		return false
+	}
+	// (2) stores
+	isCell := func(v ssa.Value) bool { return rootCell(v) == cell }
+	var mk ssa.Instruction // where the scanning literal is made
+	an.Instrs(rrc, func(in ssa.Instruction) {
+		if mc, ok := in.(*ssa.MakeClosure); ok {
+			for _, g := range withLiterals(mc.Fn.(*ssa.Function)) {
+				if g == lit {
+					mk = in
+				}
+			}
+		}
+	})
+	okStores := mk != nil
+	for _, g := range withLiterals(rrc) {
+		an.Instrs(g, func(in ssa.Instruction) {
+			st, ok := in.(*ssa.Store)
+			if !ok || !isCell(st.Addr) {
+				return
+			}
+			k, isK := st.Val.(*ssa.Const)
+			switch {
+			case isK && k.Value != nil && k.Value.ExactString() == "false":
+			case isK && k.Value != nil && k.Value.ExactString() == "true" && g == rrc && mk != nil && instrDominates(st, mk):
+			default:
+				okStores = false
+			}
+		})
+	}
+	// (3) ways out of the loop
+	inLoop := func(b *ssa.BasicBlock) bool {
+		for _, pr := range hdr.Preds {
+			if hdr.Dominates(pr) && loopContains(hdr, pr, b) {
+				return true
+			}
+		}
+		return b == hdr
+	}
+	var body *ssa.BasicBlock
+	for _, sb := range hdr.Succs {
+		if sb != hdr && inLoop(sb) {
+			body = sb
+		}
+	}
+	okExits := body != nil
+	if body != nil {
+		s := &an.Search{P: p, Fn: lit,
+			Cut: func(in ssa.Instruction) bool {
+				st, ok := in.(*ssa.Store)
+				if !ok || !isCell(st.Addr) {
+					return false
+				}
+				k, isK := st.Val.(*ssa.Const)
+				return isK && k.Value != nil && k.Value.ExactString() == "false"
+			},
+			CutEdge: func(from, to *ssa.BasicBlock) bool { return to == hdr }, // the next round starts afresh
+			GoalBlock: func(b, pred *ssa.BasicBlock) bool {
+				if inLoop(b) || pred == nil || !inLoop(pred) || pred == hdr {
+					return false
+				}
+				if r, isRet := b.Instrs[len(b.Instrs)-1].(*ssa.Return); isRet && p.ClassifyReturn(r, pred) == an.RetError {
+					return false
+				}
+				return true
+			}}
+		if w := s.Run(body, 0, hdr); w != nil {
+			okExits = false
+		}
+	}
+	if okRet && okStores && okExits {
+		c.OK(key, "finish is a variable set true before the scan and false on every early way out of it; the success return hands it back", p.Pos(rrc.Pos()))
+	} else {
+		c.Fail(key, "the credit scan can be left early (batch limit / height boundary) while still reporting finish: the wallet's status and keystore are deleted although credits carrying its script hashes remain", p.Pos(rrc.Pos()))
+	}
+	return true
 }
